@@ -263,7 +263,13 @@ fn replay_schedule(case: &Value, rep: &mut Report, rng: &mut Rng) {
     if bool_of(p, "hasval") {
         return; // validation variants are replayed by the early-stop / flags instances
     }
-    for arch in architectures() {
+    // (plus an image-to-image network -- the last layer is a convolution, the targets are volumes -- which only the
+    // schedule replay can use: `validate` scores flat outputs)
+    let image = json!({"name": "image-to-image-sgdm", "ints": false, "input": [1, 4, 4], "out": 2, "image_target": [3, 4, 4],
+                       "layers": [{"kind": "conv", "filters": 2, "kernel": [3, 3], "stride": [1, 1], "padding": [1, 1], "act": "tanh"},
+                                  {"kind": "conv", "filters": 3, "kernel": [3, 3], "stride": [1, 1], "padding": [1, 1], "act": "sigmoid"}],
+                       "objective": {"kind": "mse"}, "optimizer": {"kind": "sgdm", "lr": 0.05, "momentum": 0.5}});
+    for arch in architectures().into_iter().chain(std::iter::once(image)) {
         let name = str_of(&arch, "name").to_string();
         let data = arch_dataset(&arch, n, rng);
         let mut a = nets::build(&arch);
